@@ -8,8 +8,9 @@ from stages import F, mc_stage, run_events, random_program_cases, random_instr_c
 IP10 = [-2147483648, -2147483647, -2, -1, 0, 1, 2, 3, 2147483646, 2147483647]
 IP6 = [-2147483648, -1, 0, 1, 2, 2147483647]
 IDX8 = [-2147483648, -1, 0, 1, 2, 3, 4, 2147483647]
-FP15 = [F[k] for k in ("zero", "nzero", "one", "mone", "h", "x15", "m25", "three", "tiny", "big", "inf", "ninf", "nan", "tenth", "max")]
-FP7 = [F[k] for k in ("zero", "nzero", "one", "m25", "h", "inf", "nan")]
+# 1065353217 is the float next to 1.0, 1036831950 the one next to 0.1 (comparisons are exact, never "close enough")
+FP15 = [F[k] for k in ("zero", "nzero", "one", "mone", "h", "x15", "m25", "three", "tiny", "big", "inf", "ninf", "nan", "tenth", "max")] + [1065353217, 1036831950]
+FP7 = [F[k] for k in ("zero", "nzero", "one", "m25", "h", "inf", "nan")] + [1065353217]
 
 GENERIC_OPS = ("DUP", "POP", "FLUSH", "SWAP", "ROT", "YANK", "YANKDUP", "SHOVE", "STACKDEPTH", "ID", "DEFINE")
 NINE = ("BOOLEAN", "INTEGER", "FLOAT", "NAME", "CODE", "EXEC", "BOOLVECTOR", "INTVECTOR", "FLOATVECTOR")
@@ -48,6 +49,8 @@ def vector_instrs(reg):
     return fam(reg, lambda n: "VECTOR." in n and not is_stackop(n) and not n.endswith(".RAND") and n != "INTVECTOR.LOOP")
 
 
+UMLAUT_INSTR = "VERIF.N\xd6\xd6P*MIT*UML\xc4UTEN*\xdcBER*DREIUNDZWANZIG*BYTES"     # a custom instruction with a non-ASCII name (harness)
+CUSTOM_INSTRS = ["VERIF.PROBE", "VERIF.NOOP*WITH*A*NAME*LONGER*THAN*ANY*BUILTIN*INSTRUCTION", UMLAUT_INSTR, "VERIF." + "\u00c4\u00d6\u00dc*" * 12 + "NOOP", "VERIF.MyInstruction"]
 RAND = ["BOOLEAN.RAND", "INTEGER.RAND", "FLOAT.RAND", "NAME.RAND", "NAME.RANDBOUNDNAME", "BOOLVECTOR.RAND", "INTVECTOR.RAND", "FLOATVECTOR.RAND"]
 LISTREC = ["LIST.ADD", "LIST.SET"]
 LISTVAL = ["LIST.REMOVE", "LIST.GET", "LIST.BVAL", "LIST.IVAL", "LIST.FVAL"]
@@ -78,6 +81,7 @@ def run_c04(ctx):
             s["exec"] = [ins(name)]
             cs.append({"id": "longname-%03d-%s" % (i, name), "pre": s, "acts": [{"a": "step"}]})
     run_events(ctx, "long_names", cs)
+    run_events(ctx, "multibyte_names", long_name_cases(ctx, q))
     if not q:
         # build-profile clause: the same cases in the optimised build
         pv.build_harness("release")
@@ -107,10 +111,17 @@ def points_of(t):
     return out
 
 
-def nested_tree(g, points, depth=0):
+# floats that print alike ("0.250", "0.000", "-0.000") without being equal, and floats that are equal without
+# printing alike (0.0 / -0.0), NaN (never equal to itself)
+ALIKE = [gen.f2b(0.25), gen.f2b(0.25) + 1, gen.f2b(0.2502), 0, -2147483648, gen.f2b(1e-8), gen.f2b(-1e-8), 2143289344, gen.f2b(1.0)]
+
+
+def nested_tree(g, points, depth=0, floats=False):
     """plain trees that nest lists inside lists (so that indices behind nested siblings are exercised)"""
     r = g.r
     if points <= 1 or depth > 4:
+        if floats and r.random() < 0.5:
+            return {"k": "float", "v": r.choice(ALIKE)} if r.random() < 0.8 else {"k": "fvec", "v": [r.choice(ALIKE) for _ in range(r.randint(0, 2))]}
         k = r.random()
         if k < 0.5: return {"k": "int", "v": r.randint(0, 9)}
         if k < 0.7: return {"k": "id", "v": r.choice(["a", "b", "c"])}
@@ -120,7 +131,7 @@ def nested_tree(g, points, depth=0):
     rest, kids = points - 1, []
     while rest > 0:
         k = r.randint(1, rest) if r.random() < 0.6 else 1
-        kids.append(nested_tree(g, k, depth + 1)); rest -= k
+        kids.append(nested_tree(g, k, depth + 1, floats)); rest -= k
     return {"k": "list", "v": kids}
 
 
@@ -129,10 +140,22 @@ def code_point_cases(ctx, n):
     g = gen.Gen(ctx.seed + 17, ctx.registry, small_ints=True)
     cases = []
     for i in range(n):
-        t = nested_tree(g, g.r.randint(2, 16))
+        fl = i % 3 == 2
+        t = nested_tree(g, g.r.randint(2, 16), floats=fl)
         pts = points_of(t)
         k = g.r.randrange(len(pts))
-        needle = pts[k] if g.r.random() < 0.85 else nested_tree(g, g.r.randint(1, 3))
+        needle = pts[k] if g.r.random() < 0.85 else nested_tree(g, g.r.randint(1, 3), floats=fl)
+        if fl and g.r.random() < 0.6:       # a needle that differs from a point of the tree in one float only
+            fpts = [x for x in pts if x["k"] == "float"]
+            if fpts:
+                victim = g.r.choice(fpts)
+                needle = json.loads(json.dumps(needle if needle["k"] == "list" and g.r.random() < 0.5 else victim))
+                def swap(x):
+                    if x["k"] == "float":
+                        x["v"] = g.r.choice(ALIKE)
+                    elif x["k"] == "list" and x["v"]:
+                        swap(g.r.choice(x["v"]))
+                swap(needle)
         repl = nested_tree(g, g.r.randint(1, 3))
         for name, code, ints in (("CODE.POSITION", [t, needle], []), ("CODE.CONTAINER", [t, needle], []), ("CODE.CONTAINS", [t, needle], []),
                                  ("CODE.MEMBER", [needle, t], []), ("CODE.SUBST", [t, repl, needle], []),
@@ -209,6 +232,65 @@ def vector_sequence_cases(ctx, n):
     return cases
 
 
+def long_vector_cases(ctx, n_each, seed):
+    """vector instructions on vectors of 21..200 elements (block sizes, sort thresholds), NaNs and repeated
+    values mixed in, all-false / all-true stretches in the boolean ones, three vectors deep"""
+    g = gen.Gen(seed, ctx.registry, small_ints=True)
+    r = g.r
+    vi = [x for x in vector_instrs(ctx.registry)] + [x for x in stack_instrs(ctx.registry) if "VECTOR." in x]
+    def L():
+        return r.choice([21, 22, 31, 32, 33, 63, 64, 65, 70, 100, 127, 128, 129, 200])
+    def fv(n):
+        mode = r.random()
+        return [(2143289344 if r.random() < 0.25 else gen.f2b(r.randint(-40, 40) / 4.0)) if mode < 0.6 else gen.f2b(float(i % 7)) for i in range(n)]
+    def bv(n):
+        mode = r.random()
+        if mode < 0.25:      # a few TRUE bits after long FALSE stretches
+            hot = set(r.sample(range(n), min(n, r.randint(0, 3))))
+            return [i in hot for i in range(n)]
+        if mode < 0.5:       # whole blocks of 8 / 32 / 64 FALSE before the first TRUE
+            first = r.choice([8, 32, 64, 65, 70, 128, 129]) % max(1, n)
+            return [i == first or (i > first and r.random() < 0.2) for i in range(n)]
+        if mode < 0.6:
+            return [i % 64 == 63 or i >= n - 2 for i in range(n)]
+        return [r.random() < 0.5 for _ in range(n)]
+    def iv(n):
+        return [r.randint(-5, 30) if r.random() < 0.8 else g.int() for _ in range(n)]
+    cases = []
+    for name in vi:
+        for i in range(n_each * (6 if ("SORT" in name or "INDEX" in name or "COUNT" in name) else 1)):
+            s = gen.empty_state()
+            s["fvec"] = [fv(L()), fv(L()), fv(r.randint(0, 3))]
+            s["bvec"] = [bv(L()), bv(L()), bv(r.randint(0, 3))]
+            s["ivec"] = [iv(L()), iv(L()), iv(r.randint(0, 3))]
+            s["int"] = [r.choice([0, 1, 20, 63, 64, 65, -1, 130]), r.choice([0, 5, 64, 100]), r.randint(-3, 70)]
+            s["float"] = [g.float(), gen.f2b(2.0)]
+            s["bool"] = [True, False]
+            s["exec"] = [ins(name)]
+            cases.append({"id": "longvec-%s-%d" % (name, i), "pre": s, "acts": [{"a": "step"}]})
+    return cases
+
+
+def long_name_cases(ctx, q):
+    """NAME instructions on long names whose characters take 1, 2, 3 or 4 bytes (byte-length thresholds never
+    fall on a character boundary for all of them), plus programs that double a name step by step"""
+    cs = []
+    names = [n for n in ctx.registry if n.startswith("NAME.") and not n.endswith("RAND") and n != "NAME.RANDBOUNDNAME"]
+    grid = [(100, 1), (5000, 6000), (8191, 1), (2730, 9000)] if q else [(a, b) for a in (1, 100, 2047, 2730, 4096, 5461, 8191, 8192, 10000, 20000) for b in (1, 3000, 6000, 9000)]
+    for ch in ["x", "\u00e9", "\u20ac", "\U0001d11e"]:
+        for (la, lb) in grid:
+            for name in names:
+                s = gen.empty_state()
+                s["name"] = [ch * lb, ch * la, "z"]
+                s["int"] = [1, 0]
+                s["exec"] = [ins(name)]
+                cs.append({"id": "mbname-%x-%d-%d-%s" % (ord(ch), la, lb, name), "pre": s, "acts": [{"a": "step"}]})
+        s = gen.empty_state()
+        s["exec"] = [{"k": "id", "v": ch}] + [ins("NAME.DUP"), ins("NAME.CAT")] * (15 if q else 17)
+        cs.append({"id": "doubling-%x" % ord(ch), "pre": s, "acts": [{"a": "steps", "k": 40}]})
+    return cs
+
+
 def run_c09(ctx):
     q = ctx.tier == "quick"
     instrs = vector_instrs(ctx.registry)
@@ -217,6 +299,7 @@ def run_c09(ctx):
     run_events(ctx, "rand_vector", random_instr_cases(ctx, instrs, 30 if q else 1500, ctx.seed, small_ints=True))
     run_events(ctx, "rand_vector_wide", random_instr_cases(ctx, instrs, 10 if q else 300, ctx.seed + 7))
     run_events(ctx, "vector_sequences", vector_sequence_cases(ctx, 60 if q else 3000))
+    run_events(ctx, "long_vectors", long_vector_cases(ctx, 3 if q else 60, ctx.seed + 29))
 
 
 def list_roundtrip_cases(ctx, n):
@@ -312,6 +395,19 @@ def run_c18_instr(ctx):
     mc_stage(ctx, "graph", graph_instrs(ctx.registry), dict(IntVals=[-1, 0, 1, 2, 3, 10, 2147483647] if not q else [-1, 0, 1, 2, 3], FloatVals=[F["h"], F["nan"]] if not q else [F["h"]],
                                                              VecPool="small", DInt=3, DFloat=1, DVec=1))
     cases = graph_sequence_cases(ctx, 40 if q else 2000)
+    # STATESWITCH with ids that repeat (the later position wins), switches of every pattern, lengths that differ
+    import itertools
+    G = {"nodes": [{"id": 1, "st": 5}, {"id": 2, "st": 9}, {"id": 3, "st": 5}], "edges": [{"d": 2, "in": [{"o": 1, "w": F["h"]}]}]}
+    k = 0
+    for ids in ([1, 2, 1], [1, 1], [2, 1, 2, 1], [1, 2, 3, 1], [3, 3, 3], [1, 7, 1], [1, 2]):
+        for sw in itertools.product([True, False], repeat=len(ids)):
+            for extra in ((), (True,)) if len(ids) <= 3 else ((),):
+                s = gen.empty_state()
+                s["nid"] = 4; s["graph"] = [G]
+                s["ivec"] = [ids]; s["bvec"] = [list(sw) + list(extra)]
+                s["int"] = [3, 7, 42]          # off (top), on
+                s["exec"] = [ins("GRAPH.NODE*STATESWITCH")]
+                cases.append({"id": "stateswitch-%03d" % k, "pre": s, "acts": [{"a": "step"}]}); k += 1
     run_events(ctx, "graph_sequences", cases)
 
 
@@ -381,6 +477,27 @@ def run_c06(ctx):
              dict(CodePool="big", IntVals=[0], DInt=0, DBool=1, DCode=2, DExec=2 if q else 3, VecPool="small", DVec=1))
     stages.behav_stage(ctx, "control", 4 if q else 9)
     run_events(ctx, "random_loops", loop_program_cases(ctx, 40 if q else 1500))
+    # no step kind consults the configuration: every control instruction / step kind under small and odd limits,
+    # and lists longer than every configured limit (growth cap 500, push limit 1000, 100 points)
+    g = gen.Gen(ctx.seed + 61, ctx.registry, small_ints=True)
+    cs = []
+    for i in range(120 if q else 4000):
+        s = g.program_state(g.r.randint(2, 12))
+        s["cfg"]["growth_cap"] = g.r.choice([0, 1, 2, 3, 5])
+        s["cfg"]["push_limit"] = g.r.choice([0, 1, 2, 7, 1000])
+        s["cfg"]["max_prog_points"] = g.r.choice([0, 1, 3, 100])
+        s["cfg"]["time_limit"] = g.r.choice([0, 1, 5000])
+        if i % 2:
+            body = [g.item(g.r.randint(1, 3)) for _ in range(g.r.randint(2, 9))]
+            s["exec"] = [ins(g.r.choice(CONTROL + ["EXEC.DUP", "EXEC.K", "EXEC.S", "EXEC.Y", "EXEC.IF", "EXEC.LOOP"])), lst(body), lst(body[:2])]
+        cs.append({"id": "cfgstep-%05d" % i, "pre": s, "acts": [{"a": "steps", "k": 6}]})
+    for i, n in enumerate([499, 500, 501, 502, 1000, 1001, 1500] if q else [99, 100, 101, 499, 500, 501, 502, 999, 1000, 1001, 1002, 1500, 2001]):
+        for tail in (["EXEC.DUP"], ["EXEC.K"], ["CODE.QUOTE"], ["EXEC.IF"], ["NOOP"]):
+            s = gen.empty_state()
+            s["bool"] = [True, False]
+            s["exec"] = [lst([ins("NOOP")] * (n - 1) + [ins(t) for t in tail] + [{"k": "int", "v": 5}, {"k": "int", "v": 6}, {"k": "int", "v": 7}])]
+            cs.append({"id": "longlist-%d-%s" % (n, tail[0]), "pre": s, "acts": [{"a": "steps", "k": 3}]})
+    run_events(ctx, "configuration_and_long_lists", cs)
 
 
 def run_c07(ctx):
@@ -574,10 +691,12 @@ def run_c17(ctx):
                 ops.append({"m": "pop", "args": []})
             elif k < 0.72:
                 ops.append({"m": "flush", "args": []})
+            elif k < 0.82:
+                ops.append({"m": g.r.choice(["get", "get_mut", "copy", "iter_skip", "iter_nth"]), "args": [g.r.randint(0, cap + 1)]})
             elif k < 0.86:
-                ops.append({"m": g.r.choice(["get", "get_mut", "copy"]), "args": [g.r.randint(0, cap + 1)]})
+                ops.append({"m": "iter_step", "args": [g.r.randint(1, cap + 1)]})
             else:
-                ops.append({"m": g.r.choice(BUF_OBS), "args": []})
+                ops.append({"m": g.r.choice(BUF_OBS + ["iter_last"]), "args": []})
         cs.append({"id": "bufhist-%05d" % i, "api": "buffer", "kind": g.r.choice(["queue", "stack"]), "cap": cap, "ops": ops})
     run_events(ctx, "buffer_histories", cs, spec="TraceApi")
     run_c17_instr(ctx)
@@ -683,7 +802,7 @@ WS_CHARS = [" ", "\t", "\n", "\r", "\u000b", "\u000c", "\u0085", "\u00a0", "\u16
 ODD_TOKENS = ["(", ")", "(", ")", "INT[", "INT[]", "INT[1,2]", "INT[1,2}", "INT[1,,2]", "INT[\u00e9", "INT[1\u00e9", "BOOL[", "BOOL[1,0,true,false]", "BOOL[TRUE]",
               "FLOAT[", "FLOAT[1.5,-0.25]", "FLOAT[1e3,nan]", "FLOAT[x]", "\u00e9]", "\u00e9", "na\u00efve", "\u4e2d\u6587", "(x", "x)", "()", "1", "-1", "+1", "007",
               "2147483647", "2147483648", "-2147483648", "-2147483649", "1.5", "-0.125", ".5", "5.", "1e3", "1E-2", "inf", "-Infinity", "NaN", "nan", "infinit", "1.2.3", "1e", "--1",
-              "TRUE", "FALSE", "true", "INTEGER.+", "CODE.QUOTE", "VERIF.PROBE", "VERIF.NOOP*WITH*A*NAME*LONGER*THAN*ANY*BUILTIN*INSTRUCTION", "GRAPH.NODE*PREDECESSORS", "EXEC.DO*COUNT", "integer.+", "foo", "foo-bar", "x1", "[1,2]", "BOOLVECTOR.AND", "NOOP"]
+              "TRUE", "FALSE", "true", "INTEGER.+", "CODE.QUOTE", "VERIF.PROBE", "VERIF.NOOP*WITH*A*NAME*LONGER*THAN*ANY*BUILTIN*INSTRUCTION", UMLAUT_INSTR, CUSTOM_INSTRS[3], CUSTOM_INSTRS[4], "verif.myinstruction", "GRAPH.NODE*PREDECESSORS", "EXEC.DO*COUNT", "integer.+", "foo", "foo-bar", "x1", "[1,2]", "BOOLVECTOR.AND", "NOOP"]
 
 
 def random_text(g, maxtok):
@@ -736,7 +855,7 @@ def run_c03(ctx):
     # every kind of token, in both orders, bare and inside a list
     others = ["7", "-2.5", "TRUE", "INTEGER.DUP", "foo", "INT[1,2]", "(", ")", "NAME.QUOTE", "CODE.QUOTE"]
     cs = []
-    for k, name in enumerate(ctx.registry):
+    for k, name in enumerate(ctx.registry + CUSTOM_INSTRS):
         for j, o in enumerate(others):
             pre = dict(base); pre["exec"] = []
             text = ["%s %s", "%s %s 3", "( %s %s )", "( 1 %s %s ( b ) )"][(k + j) % 4]
@@ -769,7 +888,7 @@ def run_c11(ctx):
             if k < 0.25: return {"k": "int", "v": g.int()}
             if k < 0.4: return {"k": "bool", "v": g.r.random() < 0.5}
             if k < 0.6: return {"k": "float", "v": g.float()}
-            if k < 0.8: return {"k": "ins", "v": g.r.choice(ctx.registry)}
+            if k < 0.8: return {"k": "ins", "v": g.r.choice(ctx.registry if g.r.random() < 0.9 else CUSTOM_INSTRS)}
             return {"k": "id", "v": g.r.choice(["a", "foo", "x1", "foo-bar", "na\u00efve", "q.r", "T", "inf1", "noop", "integer.+", "exec.if", "Code.Dup", "true", "nan1"])}
         rest, kids = points - 1, []
         while rest > 0:
@@ -788,7 +907,7 @@ def run_c11(ctx):
     atoms = [{"k": "int", "v": 7}, {"k": "float", "v": gen.f2b(-2.5)}, {"k": "bool", "v": True}, {"k": "ins", "v": "INTEGER.DUP"},
              {"k": "id", "v": "foo"}, {"k": "ivec", "v": [1, 2]}, {"k": "list", "v": []}, {"k": "ins", "v": "NAME.QUOTE"}]
     cs = []
-    for k, name in enumerate(ctx.registry):
+    for k, name in enumerate(ctx.registry + CUSTOM_INSTRS):
         for j, a in enumerate(atoms):
             s = gen.empty_state()
             kids = [{"k": "ins", "v": name}, a] if (k + j) % 2 else [a, {"k": "ins", "v": name}]
@@ -797,6 +916,17 @@ def run_c11(ctx):
             s2 = gen.empty_state()
             s2["exec"] = [{"k": "list", "v": [{"k": "ins", "v": name}, a, {"k": "list", "v": [a, {"k": "ins", "v": name}]}]}]
             cs.append({"id": "pairtree2-%s-%d" % (name, j), "pre": s2, "acts": [{"a": "roundtrip"}]})
+    # lists with many direct elements (printing is not abbreviated at any length)
+    for n in ([63, 64, 65, 90, 200] if q else [63, 64, 65, 66, 90, 127, 128, 129, 200, 255, 256, 257, 1000]):
+        for inner in (False, True):
+            s = gen.empty_state()
+            kids = [{"k": "int", "v": j} if j % 3 else {"k": "id", "v": "n%d" % j} for j in range(n)]
+            t = {"k": "list", "v": kids} if not inner else {"k": "list", "v": [{"k": "int", "v": 1}, {"k": "list", "v": kids}, {"k": "ins", "v": "NOOP"}]}
+            s["exec"] = [t]; s["code"] = [t]
+            s["int"] = list(range(n))
+            cs.append({"id": "widelist-%d-%s" % (n, inner), "pre": s, "acts": [{"a": "roundtrip"}, {"a": "print"}]})
+            s2 = gen.empty_state(); s2["code"] = [t]; s2["exec"] = [{"k": "ins", "v": "CODE.PRINT"}]
+            cs.append({"id": "widelist-print-%d-%s" % (n, inner), "pre": s2, "acts": [{"a": "step"}]})
     run_events(ctx, "instruction_pairs", cs)
     # every tree emitted by pushr's own random code generator
     gcases = [{"id": "gen-%05d" % i, "api": "gen", "ops": [{"m": "random_code_with_size", "args": [ctx.registry, g.r.randint(1, 40)]} for _ in range(10)]} for i in range(20 if q else 1500)]
@@ -835,6 +965,13 @@ def run_c12(ctx):
                       {"x": {"k": "int", "v": 2}, "y": {"k": "int", "v": 3}, "zz": {"k": "list", "v": []}}, {"a": {"k": "int", "v": 1}, "q": {"k": "int", "v": 3}, "c": {"k": "list", "v": []}}):
             for pbits, pzero in ((0, True), (981668463, False), (gen.f2b(1.0), False)):
                 st = gen.empty_state(); st["bind"] = bound; st["cfg"]["new_name_p"] = pbits
+                # nothing but the binding table, the instruction list and the new-name probability may shape the
+                # program: unbound names waiting on the NAME stack, other stacks, the RAND bounds of other types
+                st["name"] = ["pending-one", "pending-two"]; st["int"] = [7]; st["code"] = [{"k": "id", "v": "lurking"}]
+                if k % 2:
+                    st["cfg"].update(min_f=gen.f2b(-8.0), max_f=gen.f2b(8.0), min_i=100, max_i=200)
+                elif k % 4 == 2:
+                    st["cfg"].update(min_f=gen.f2b(-4.0), max_f=gen.f2b(-1.0), min_i=-7, max_i=-3)
                 ops = []
                 for n in range(1, N + 1):
                     for _ in range(max(1, draws // 4)):
@@ -988,6 +1125,12 @@ def run_c14(ctx):
         s["float"] = [gen.f2b(g.r.choice([0.0, 1.0, 1.5, 2.0]))] + s["float"]
         s["exec"] = [ins(g.r.choice(NEIGH))]
         cases.append({"id": "detnb-%05d" % i, "pre": s, "steps": 2})
+    # histories on the queues and the graph stack (earlier traffic must not show in a later run on an equal state)
+    for c in io_sequence_cases(ctx, 40 if q else 1500) + graph_sequence_cases(ctx, 20 if q else 800):
+        body = [x for x in c["pre"]["exec"] if not (x.get("k") == "ins" and (x["v"].endswith(".RAND") or x["v"] in NONDET or x["v"] == "GRAPH.NODE*ADD"))]
+        pre = dict(c["pre"]); pre["exec"] = body
+        pre.pop("rot", None)          # the rotation is chosen per thread by the driver
+        cases.append({"id": "dethist-" + c["id"], "pre": pre, "steps": 150})
     cp = os.path.join(ctx.work, "det.cases.ndjson")
     with open(cp, "w") as f:
         for c in cases: f.write(json.dumps(c) + "\n")
@@ -1122,6 +1265,22 @@ def run_c15(ctx):
                     s["int"] = [2, 1]; s["bool"] = [True]; s["name"] = ["a"]
                     s["exec"] = [ins(name), a, b, c] if name.startswith("EXEC.") else [ins(name)]
                     cs.append({"id": "combo-%s-%d" % (name, k), "pre": s, "acts": [{"a": "step"}], "predict": "bounded"}); k += 1
+    # deeply nested small items (rendering, comparing and searching them stays linear in their size)
+    def deep(d, leaf):
+        t = leaf
+        for _ in range(d):
+            t = lst([t])
+        return t
+    for name in [n for n in ctx.registry if n.startswith("CODE.") or n.startswith("EXEC.")] + ["NAME.QUOTE", "INTEGER.DEFINE", "LIST.ADD", "LIST.IVAL", "LIST.GET"]:
+        if name == "EXEC.CMD":
+            continue
+        for d in ((30, 45) if q else (26, 30, 40, 60, 90)):
+            a, b = deep(d, I(1)), deep(d, I(2))
+            s = gen.empty_state()
+            s["code"] = [a, b, a]
+            s["int"] = [2, 1, 0]; s["bool"] = [True]; s["name"] = ["a"]; s["ivec"] = [[3, 3]]
+            s["exec"] = [ins(name), a, b, a] if name.startswith("EXEC.") else [ins(name)]
+            cs.append({"id": "deep-%s-%d" % (name, d), "pre": s, "acts": [{"a": "step"}], "predict": "bounded"})
     idn = lambda v: {"k": "id", "v": v}
     for k, bind in enumerate([{"a": idn("b"), "b": idn("a")}, {"a": idn("a")}, {"a": idn("b"), "b": idn("c"), "c": idn("a")},
                               {"a": idn("b"), "b": idn("c"), "c": I(1)}, {"a": lst([idn("a")])}, {"a": idn("b"), "b": lst([idn("a"), idn("b")])}]):
@@ -1182,6 +1341,9 @@ def run_c01(ctx):
     seqs = io_sequence_cases(ctx, 60 if q else 3000) + graph_sequence_cases(ctx, 30 if q else 2000) + \
         loop_program_cases(ctx, 20 if q else 1000) + list_roundtrip_cases(ctx, 40 if q else 2000) + vector_sequence_cases(ctx, 30 if q else 1500)
     run_events(ctx, "family_sequences", seqs)
+    # sizes: long vectors (sort / block thresholds) and long multi-byte names (byte-length thresholds)
+    run_events(ctx, "long_vectors", long_vector_cases(ctx, 2 if q else 40, ctx.seed + 31))
+    run_events(ctx, "multibyte_names", long_name_cases(ctx, q))
     if not q:
         pv.build_harness("release")
         run_events(ctx, "rand_programs_release", random_program_cases(ctx, 3000, ctx.seed + 9), profile="release")
